@@ -148,6 +148,9 @@ def tables(tier, z):
         out.append({"vi": [10, 20], "io": [1, 3], z: [[0, 1], [1, 2]]})
     if z == "eff":
         out.append({"vi": [24], "io": [1, 2, 4], z: [[1, 1, 1]]})
+    a_, b_, c_ = vals   # 1-D axes spanning many decades (still well-conditioned: steps >= 1e-4 of the largest coordinate is about vi/io TOGETHER only for 2-D)
+    out.append({"vi": [3.3], "io": [5e-5, 1e-2, 1.0], z: [[a_, c_, b_]]})
+    out.append({"vi": [3.3], "io": [1e-6, 1e-3, 0.5, 2.0], z: [[c_, a_, b_, a_]]})
     if z in ("vdrop", "ig", "eff"):   # integer io axis next to NON-integer vi rows
         a, b, c = vals
         out.append({"vi": [3.3, 12.5], "io": [1, 2, 5], z: [[a, b, c], [c, a, b]]})
@@ -286,6 +289,51 @@ def check_arrayform(case):
     return res
 
 
+def check_reusedict(case):
+    """ONE table dict object used for two components, edited in place between the two constructor calls: each component evaluates to the values
+    the dict held when IT was built."""
+    import copy
+    from ..sysmodel import KINDS
+    from sysloss.system import System
+    from sysloss.components import Source, ILoad
+    res = Res()
+    carrier = case["carrier"]
+    z = zkey(carrier)
+    T = copy.deepcopy(case["table"])
+    def build_and_read(tab, Vq, Iq):
+        c = carrier_comp(carrier, tab, 1 if Vq > 0 else -1)
+        s = System("p", Source("S", vo=Vq, rs=0.0))
+        s.add_comp("S", comp=KINDS[c["k"]]("X", **c["a"]))      # the very dict object
+        s.add_comp("X", comp=ILoad("L", ii=Iq))
+        return s
+    for Vq, Iq in case["queries"]:
+        T1 = copy.deepcopy(case["table"])
+        for k_ in T:
+            T[k_] = copy.deepcopy(T1[k_])
+        sA = build_and_read(T, Vq, Iq)
+        T2 = copy.deepcopy(T1)
+        T2[z] = [[(v * 0.5 + (0.3 if z == "eff" else 0.0)) for v in row] for row in T1[z]]
+        T[z] = T2[z]                                        # in-place edit of the SAME dict object (new valid values)
+        sB = build_and_read(T, Vq, Iq)
+        try:
+            vA = readback(carrier, observe(quiet_call(sA.solve)[0])[("", "X")])
+            vB = readback(carrier, observe(quiet_call(sB.solve)[0])[("", "X")])
+        except Exception as e:
+            res.v(("C10.reuse-raises", carrier, type(e).__name__), str(e)[:200])
+            continue
+        res.stats["evaluations"] += 2
+        for tag, tab, val in (("first", T1, vA), ("second", T2, vB)):
+            kind, e = expectation(tab, z, Iq, abs(Vq))
+            flat = [abs(v) for row in tab[z] for v in row]
+            tol = 1e-7 * max(flat) + (1e-9 if z != "ig" else 2e-8)
+            bad = (abs(val - e) > tol) if kind == "exact" else (val < e[0] - tol or val > e[1] + tol)
+            if bad:
+                res.v(("C10.table-dict-reused", carrier, tag), "io=%r vi=%r: the %s component reads %r, its table gives %r" % (Iq, Vq, tag, val, e))
+    res.nontrivial = 1
+    res.classes.add("reusedict")
+    return res
+
+
 def check_muxtable(case):
     """a multi-input PMux with a 2-D ig table: the lookup uses the voltage of the SELECTED input (the first one is dead here)."""
     res = Res()
@@ -328,6 +376,8 @@ def check_case(case):
         return check_nano(case)
     if case.get("fam") == "arrayform":
         return check_arrayform(case)
+    if case.get("fam") == "reusedict":
+        return check_reusedict(case)
     res = Res()
     carrier, table = case["carrier"], case["table"]
     z = zkey(carrier)
@@ -400,6 +450,8 @@ def gen_cases(tier):
         # 1-D tables only: the constructors concatenate the axes of a 2-D table as LISTS, numpy arrays are not an accepted form there
         for t in ({"vi": [3.3], "io": [0.1, 0.4, 1.0], z_: [[v_[0], v_[2], v_[1]]]}, {"vi": [5.0], "io": [0.05, 0.2], z_: [[v_[1], v_[0]]]}):
             yield dict(fam="arrayform", carrier=carrier, table=t, queries=[[3.3, 0.4], [5.0, 0.25], [-3.3, 0.7], [4.0, 0.2]])
+        for t in ({"vi": [3.3], "io": [0.1, 0.4, 1.0], z_: [[v_[0], v_[2], v_[1]]]}, {"vi": [2.5, 5.0], "io": [0.0, 0.2, 0.9], z_: [[v_[0], v_[1], v_[2]], [v_[1], v_[2], v_[0]]]}):
+            yield dict(fam="reusedict", carrier=carrier, table=t, queries=[[3.3, 0.4], [5.0, 0.2], [2.5, 0.9], [4.0, 0.55]])
     vals = VALS["ig"]
     for io, vi in (([0.0, 0.2, 0.9], [2.5, 5.0]), ([0.1, 0.5], [1.0, 3.3, 12.0])):
         for k in range(3):
